@@ -259,6 +259,32 @@ theorem C06_swap_flag_irrelevant (m₁ m₂ : Mode) (size shift : Nat) (hs : 0 <
       funext i; simp [hostC, hd]
     simp only [Function.comp_apply, tagFrame, Frame.map, List.map_map, Option.map_map, hf]
 
+/-- the value a stored cell denotes for a signal `x` (host-order values) and a byte-reversal `bswap`:
+what the bytes in memory read as on the host -/
+def Cell.val {α : Type} (x : Nat → α) (bswap : α → α) (c : Cell) : α :=
+  if c.rev then bswap (x c.src) else x c.src
+
+/-- **C06 with byte swapping, for every signal.**  `x i` is sample `i` as a host-order value, `bswap`
+the byte reversal (any function).  The caller's buffers hold `bswap (x i)` when `fe->swap` is set and
+`x i` otherwise (`inC`); whatever the schedule, the values the frame function receives are the
+canonical windows of `x` itself — the run with `input_endian` ≠ host on the byte-reversed signal and
+the run with `input_endian` = host on the plain signal hand over the same windows (this is the
+comparison B-vs-A the check makes bitwise on the implementation). -/
+theorem C06_swap_window_values {α : Type} (x : Nat → α) (bswap : α → α) (m : Mode) (size shift : Nat)
+    (hs : 0 < shift) (hss : shift ≤ size) (specs : List (Nat × List Nat)) (endRoom : Nat) (he : 0 < endRoom) :
+    (∀ i, (inC m i).val x bswap = if m.swap then bswap (x i) else x i) ∧
+    ∃ r nend, runS m ⟨size, shift, true⟩ (inChunks m (chunksFrom 0 specs)) endRoom = some (r, nend) ∧
+      r.fe.out.map (Frame.map (Cell.val x bswap)) = (canonical size shift (total specs)).map (Frame.map x) := by
+  refine ⟨fun i => rfl, ?_⟩
+  obtain ⟨r, nend, h, hout, -⟩ := C06_swap_frames_canonical m size shift hs hss specs endRoom he
+  refine ⟨r, nend, h, ?_⟩
+  rw [hout, List.map_map]
+  apply List.map_congr_left
+  intro fr _
+  obtain ⟨w, p⟩ := fr
+  have hv : (Cell.val x bswap ∘ hostC m) = x := rfl
+  simp only [Function.comp_apply, tagFrame, Frame.map, List.map_map, Option.map_map, hv]
+
 /-- **C06 byte order: the byte-order model refines the index model, whole utterance.**  For every
 mode, every configuration (pinned or repaired tree, any sizes) and *every* list of chunks (arbitrary
 sample indices) with arbitrary limits: on input handed over in input byte order the byte-order model
